@@ -51,7 +51,7 @@ def run(ctx):
     ctx.assumptions += ['np.exp/logaddexp/logsumexp (float) approximate the real functions; model compared on the exact dyadic '
                         'values of the probabilities the code itself computed (D2), outputs within 1e-12']
     reqs, impl = [], []
-    n = 250 if ctx.quick() else 5000
+    n = 500 if ctx.quick() else 6000
     for it in range(n):
         C = rng.randrange(2, 7)
         nl = rng.randrange(1, 6)
